@@ -52,7 +52,9 @@ type Prog struct {
 	fnKeyMemo map[string]*ssa.Function
 	chanUsesMemo []chanUse
 	cnameMemo map[*ssa.Function]string
-	basesMemo map[*ssa.Alloc]map[ssa.Value]bool
+	basesMemo map[ssa.Value]map[ssa.Value]bool
+	ctorMemo map[*ssa.Function]*ssa.Alloc
+	envMemo []*Envelope
 	noRet map[*ssa.BasicBlock]bool
 }
 
